@@ -3,7 +3,7 @@ import json, os
 V = os.path.dirname(os.path.dirname(os.path.abspath(__file__)))
 CHECKS = {
  "C13": ("fault_enumeration", "3 C13",
-   "For each sampled world the fault-free run is the executable reference; then every solver-invocation index of that run (first and last included) receives an injected fault (quick: 4 seeded kinds per index, thorough: all 17 kinds), plus multi-fault, clock-jump and budget-exhaustion plans and plans in which an undisturbed solve() is followed by a faulted solve() on the same object, each followed by a fault-free recovery run. Checked: solved only after a proven optimum, never another answer than the reference, no skipped inconclusive k, getters raise when unsolved (also before solve), no SystemExit/hang, recovery, no armed alarm left. Systematic over positions x kinds per world; worlds themselves are sampled.",
+   "For each sampled world the fault-free run is the executable reference; then every solver-invocation index of that run (first and last included) receives an injected fault (quick: 6 seeded kinds per index, thorough: all 25 kinds - every member of HighsModelStatus other than optimal/infeasible, plus exception, overshoot and clock faults), plus multi-fault, clock-jump and budget-exhaustion plans and plans in which an undisturbed solve() is followed by a faulted solve() on the same object, each followed by a fault-free recovery run. Checked: solved only after a proven optimum, never another answer than the reference, no skipped inconclusive k, getters raise when unsolved (also before solve), no SystemExit/hang, recovery, no armed alarm left. Systematic over positions x kinds per world; worlds themselves are sampled.",
    "HiGHS truthful about optimal/infeasible and deterministic with 1 thread; statuses other than the two genuine limit statuses are stubbed at the HighsCustom seam; Gurobi backend not run.",
    "deterministic simulation: fault enumeration over solver invocations (status/time-limit/exception/clock/alarm faults) against the fault-free reference run"),
  "C01": ("exploration", "3 C01",
